@@ -11,6 +11,8 @@ import (
 	"runtime"
 	"strconv"
 	"strings"
+	"sync"
+	"time"
 )
 
 var zzVec []uint64
@@ -82,7 +84,13 @@ func verifAssert(c bool, label string) {
 	}
 }
 func verifCover(label string)            { fmt.Printf("VERIF-COVER %s\n", label) }
-func verifYield()                        { runtime.Gosched() }
+func verifYield() {
+	_, file, line, _ := runtime.Caller(1)
+	if i := strings.LastIndexByte(file, '/'); i >= 0 {
+		file = file[i+1:]
+	}
+	zzverifGate(file + ":" + strconv.Itoa(line))
+}
 func verifConcreteInt(x int) int         { return x }
 func verifConcreteByte(x byte) byte      { return x }
 func verifConcreteBytes(b []byte)        {}
@@ -99,4 +107,158 @@ func verifSetBudget(n int) {}
 // verifTerminates: natively a watchdog; the replay driver treats a hang as reproduction.
 func verifTerminates(budget int, label string) {
 	fmt.Printf("VERIF-TERMINATES %s\n", label)
+}
+
+// ---- schedule replay: gates ----
+// VERIF_GATES=<file> holds lines "parkG parkSite parkHit untilG untilKind untilSite untilHit". A goroutine
+// (identified by its verifTag) that reaches its park site for the hit-th time is held there until the
+// until-event has happened (or a grace period for "block" events / lost wake-ups has passed).
+
+type zzGateStep struct {
+	parkG              int
+	parkSite           string
+	parkHit            int
+	untilG             int
+	untilKind, untilSite string
+	untilHit           int
+}
+
+var (
+	zzGateMu    sync.Mutex
+	zzGateCond  = sync.NewCond(&zzGateMu)
+	zzGatePlan  []zzGateStep
+	zzGateInit  bool
+	zzTags      = map[int64]int{}    // goroutine id -> tag
+	zzHits      = map[string]int{}   // "tag|site" -> hits
+	zzExited    = map[int]bool{}
+	zzLastEvent = map[int]time.Time{} // tag -> time of its last gate event
+)
+
+func zzGoID() int64 {
+	var buf [64]byte
+	n := runtime.Stack(buf[:], false)
+	// "goroutine 123 [running]:"
+	f := strings.Fields(string(buf[:n]))
+	if len(f) < 2 {
+		return -1
+	}
+	id, _ := strconv.ParseInt(f[1], 10, 64)
+	return id
+}
+
+func zzLoadGates() {
+	if zzGateInit {
+		return
+	}
+	zzGateInit = true
+	f, err := os.Open(os.Getenv("VERIF_GATES"))
+	if err != nil {
+		return
+	}
+	defer f.Close()
+	sc := bufio.NewScanner(f)
+	for sc.Scan() {
+		fs := strings.Fields(sc.Text())
+		if len(fs) != 7 {
+			continue
+		}
+		var st zzGateStep
+		st.parkG, _ = strconv.Atoi(fs[0])
+		st.parkSite = fs[1]
+		st.parkHit, _ = strconv.Atoi(fs[2])
+		st.untilG, _ = strconv.Atoi(fs[3])
+		st.untilKind = fs[4]
+		st.untilSite = fs[5]
+		st.untilHit, _ = strconv.Atoi(fs[6])
+		zzGatePlan = append(zzGatePlan, st)
+	}
+}
+
+func verifTag(n int) func() {
+	id := zzGoID()
+	zzGateMu.Lock()
+	zzLoadGates()
+	zzTags[id] = n
+	zzLastEvent[n] = time.Now()
+	for _, st := range zzGatePlan {
+		if st.parkG == n && st.parkSite == "@start" {
+			zzWaitFor(st, n, "@start")
+		}
+	}
+	zzLastEvent[n] = time.Now()
+	zzGateMu.Unlock()
+	return func() {
+		zzGateMu.Lock()
+		zzExited[n] = true
+		zzGateCond.Broadcast()
+		zzGateMu.Unlock()
+	}
+}
+
+func zzGateResetForCase() {
+	zzGateMu.Lock()
+	zzGateInit = false
+	zzGatePlan = nil
+	zzTags = map[int64]int{}
+	zzHits = map[string]int{}
+	zzExited = map[int]bool{}
+	zzLastEvent = map[int]time.Time{}
+	zzGateMu.Unlock()
+}
+
+// zzWaitFor holds the calling goroutine (zzGateMu held) until the step's until-event has happened.
+func zzWaitFor(st zzGateStep, tag int, site string) {
+	deadline := time.Now().Add(3 * time.Second)
+	for {
+		done := false
+		switch st.untilKind {
+		case "exit":
+			done = zzExited[st.untilG]
+		case "site":
+			done = zzHits[strconv.Itoa(st.untilG)+"|"+st.untilSite] >= st.untilHit || zzExited[st.untilG]
+		case "block":
+			// the other goroutine blocked: approximated by "no gate event from it for 150ms"
+			done = time.Since(zzLastEvent[st.untilG]) > 150*time.Millisecond || zzExited[st.untilG]
+		}
+		if done || time.Now().After(deadline) {
+			if os.Getenv("VERIF_GATE_DEBUG") != "" {
+				fmt.Printf("VERIF-GATE release g=%d site=%s done=%v\n", tag, site, done)
+			}
+			return
+		}
+		go func() {
+			time.Sleep(20 * time.Millisecond)
+			zzGateMu.Lock()
+			zzGateCond.Broadcast()
+			zzGateMu.Unlock()
+		}()
+		zzGateCond.Wait()
+	}
+}
+
+// zzverifGate is inserted (by source rewriting of an overlay copy) before the statements the
+// counterexample schedule preempts at or resumes from.
+func zzverifGate(site string) {
+	id := zzGoID()
+	zzGateMu.Lock()
+	zzLoadGates()
+	tag, ok := zzTags[id]
+	if !ok {
+		tag = 0 // untagged goroutines count as the main goroutine
+	}
+	key := strconv.Itoa(tag) + "|" + site
+	zzHits[key]++
+	hit := zzHits[key]
+	zzLastEvent[tag] = time.Now()
+	zzGateCond.Broadcast()
+	if os.Getenv("VERIF_GATE_DEBUG") != "" {
+		fmt.Printf("VERIF-GATE hit g=%d site=%s hit=%d plan=%d\n", tag, site, hit, len(zzGatePlan))
+	}
+	for _, st := range zzGatePlan {
+		if st.parkG != tag || st.parkSite != site || st.parkHit != hit {
+			continue
+		}
+		zzWaitFor(st, tag, site)
+	}
+	zzGateMu.Unlock()
 }
